@@ -27,6 +27,7 @@ type Env struct {
 	prevState *State
 	entryVals  map[*ssa.Phi]Val // atentry(e): header phis as they were when the loop was entered
 	entryState *State
+	noRename  bool              // already resolving a renamed local
 	stepFrom  *ssa.BasicBlock   // step clauses: the source block of the back edge
 	strong    map[string]string // strong(name): "self" and function-typed parameters
 }
@@ -161,6 +162,17 @@ func (fx *fnExec) eval(e *Expr, env *Env) TV {
 					terms[i] = fx.s.decl(ht+l.Path, l.S)
 				}
 				return TV{fx.g.fromLeaves(v.Type(), terms), v.Type()}
+			}
+		}
+		if env.fr != nil && !env.noRename {
+			// the local may have been renamed: same shape under exactly one other name (localsigs.json)
+			if nn, ok := fx.renamedLocal(env.fr.fn, e.Name); ok {
+				e2 := *e
+				e2.Name = nn
+				env2 := *env
+				env2.noRename = true
+				fx.renamed = appendUnique(fx.renamed, e.Name+" -> "+nn)
+				return fx.eval(&e2, &env2)
 			}
 		}
 		panic(contractErr("unknown identifier " + e.Name + " in " + fx.fn.String()))
